@@ -34,13 +34,14 @@ type Case struct {
 	Repeat  int     `json:"repeat"`
 	Grown   bool    `json:"grown,omitempty"`   // the shared buffer got its storage from a growing Append (capacity chosen by the runtime, no spare frames assumed)
 	Pooled  bool    `json:"pooled,omitempty"`  // the shared buffer is obtained from a pool allocator instead of Alloc
+	Frac    bool    `json:"frac,omitempty"`    // floating-point buffers: every stored and written sample lies strictly inside (-1,1) (otherwise they are 1..110, all clipped by a conversion)
 	Partial int     `json:"partial,omitempty"` // single samples appended to the shared buffer before the goroutines start (a partial last frame), < C
 }
 
 var Types = []string{"int8", "uint16", "int32", "int64", "float32", "float64", "NInt16", "NFloat32"}
 
 const (
-	nReadOps  = 12
+	nReadOps  = 14
 	nWriteOps = 7
 )
 
@@ -166,6 +167,17 @@ func readStep(c *Case, shared kit.AnyBuf, code, r, k int) string {
 		dst := kit.AllocAny(tw, signal.Allocator{Channels: C, Length: c.RO, Capacity: c.RO})
 		n := convtab.Lookup(c.T, tw).Convert(v, dst)
 		return sVals(dst.Snap()) + " " + strconv.Itoa(n)
+	case 12, 13: // conversion straight from the shared header into a private destination that ends with the read-only frames:
+		// a conversion reads min(source length, destination length) positions, so only read-only ones
+		to := partner(c.T)
+		if code%nReadOps == 13 {
+			if to = twin(c.T); to == "" {
+				return "-"
+			}
+		}
+		dst := kit.AllocAny(to, signal.Allocator{Channels: C, Length: c.RO, Capacity: c.RO + k%2})
+		n := convtab.Lookup(c.T, to).Convert(shared, dst)
+		return sVals(dst.Snap()) + " " + strconv.Itoa(n)
 	default: // short interleaved read straight from the shared header (only read-only positions are touched)
 		out, n := shared.ReadVals(kit.Min(c.C*c.RO, 1+k%5))
 		return sVals(out) + " " + strconv.Itoa(n)
@@ -178,7 +190,7 @@ func writeStep(c *Case, shared kit.AnyBuf, code, w, k int) {
 	s, e := c.Bounds[w], c.Bounds[w+1]
 	win := shared.Slice(s, e)
 	fr := e - s
-	val := func(i int) kit.Val { return kit.IV(int64(1 + (w*37+k*11+i)%110)) }
+	val := func(i int) kit.Val { return sampleVal(c, int64(1+(w*37+k*11+i)%110)) }
 	// inputs are sometimes longer than the window (and never empty for an empty window): whatever
 	// is offered, a writer's effects must stay inside its own frame range
 	long := 0
@@ -281,6 +293,15 @@ func spareFrames(c *Case) int {
 	return 2 + c.F%3
 }
 
+// sampleVal: the sample stored for the small positive integer x (1..110): x itself, or with
+// c.Frac in a floating-point buffer the fraction (x'-55.5)/64 with x' = x reduced to 1..110, strictly inside (-1,1).
+func sampleVal(c *Case, x int64) kit.Val {
+	if c.Frac && kit.Info(c.T).Kind == kit.Float {
+		return kit.FV((float64((x-1)%110+1) - 55.5) / 64)
+	}
+	return kit.IV(x)
+}
+
 func fill(c *Case) kit.AnyBuf {
 	spare := spareFrames(c)
 	al := signal.Allocator{Channels: c.C, Length: c.F, Capacity: c.F + spare}
@@ -293,9 +314,9 @@ func fill(c *Case) kit.AnyBuf {
 		g := kit.AllocAny(c.T, signal.Allocator{Channels: c.C, Length: 0, Capacity: 1})
 		val := func(i int) kit.Val {
 			if i < c.C*c.F {
-				return kit.IV(int64(1 + i%100))
+				return sampleVal(c, int64(1+i%100))
 			}
-			return kit.IV(int64(101 + i - c.C*c.F))
+			return sampleVal(c, int64(101+i-c.C*c.F))
 		}
 		g.AppendSample(val(0))
 		src := kit.AllocAny(c.T, signal.Allocator{Channels: c.C, Length: 0, Capacity: n/c.C + 1})
@@ -314,10 +335,10 @@ func fill(c *Case) kit.AnyBuf {
 		b = pool.Get()
 	}
 	for i := 0; i < b.Len(); i++ {
-		b.Set(i, kit.IV(int64(1+i%100)))
+		b.Set(i, sampleVal(c, int64(1+i%100)))
 	}
 	for k := 0; k < c.Partial; k++ {
-		b.AppendSample(kit.IV(int64(101 + k)))
+		b.AppendSample(sampleVal(c, int64(101+k)))
 	}
 	return b
 }
@@ -425,6 +446,9 @@ func Check(c *Case) (res kit.Result) {
 		if c.Pooled {
 			res.Class("sharedBufferFromAPool")
 		}
+		if c.Frac && kit.Info(c.T).Kind == kit.Float {
+			res.Class("floatSamplesInsideUnitRange")
+		}
 	}
 	if W >= 2 {
 		res.Class("concurrentDisjointWriters")
@@ -441,6 +465,9 @@ func FP(c *Case) uint64 {
 	}
 	if c.Grown {
 		h.Int(2)
+	}
+	if c.Frac {
+		h.Int(3)
 	}
 	h.Ints(c.Bounds)
 	h.Ints(c.Yield)
@@ -521,6 +548,7 @@ func Gen(t *rapid.T) *Case {
 		}
 	}
 	c.Repeat = 1
+	c.Frac = rapid.Bool().Draw(t, "frac")
 	if c.C >= 2 && rapid.IntRange(0, 2).Draw(t, "partialSel") == 0 {
 		c.Partial = rapid.IntRange(1, c.C-1).Draw(t, "partial")
 	}
